@@ -5,7 +5,17 @@ ROOT = os.path.dirname(os.path.dirname(os.path.abspath(__file__)))
 HOOK_COMMITS = ["b01aa39"]
 
 # id -> (category, technique, level text, level note, design ref)
+ZNOTE = "Trusted base: the reference model harness/src/refz80.rs (written from the Zilog manual / Sean Young / boo_boo MEMPTR / Patrik Rak Q / FUSE contention docs, sharing no code with rustzx); every run first re-qualifies it on z80full+z80memptr+z80ccf (thorough: + all 67 ZEXALL groups) and on an independently typed documented T-state table, and is INCONCLUSIVE if that fails. Don't-cares: F3/F5 and Q after a repeating block iteration at xxFF / followed by SCF/CCF, address during interrupt acknowledge, NMI directly after EI/DI or inside a prefix chain."
 CHECKS = {
+ "C01": ("exploration", "runtime monitoring: differential execution of the real Z80 core on a logging bus against an independent executable reference model",
+         "Every one of the 1780 instruction encodings from 20k (thorough 1M) biased-random states each + SCF/CCF follower exposing Q, exhaustive 8-bit ALU/rotate/DAA operand sweeps, all (n,A) for the MEMPTR-setting I/O forms, millions of random instruction sequences with state carried across; registers, all flag bits, MEMPTR, IFF/IM and the ordered access list compared after every step (1.4e8 steps quick).",
+         ZNOTE, "DESIGN.md §2.1, §3 C01"),
+ "C02": ("exploration", "runtime monitoring: differential execution with scripted INT/NMI line levels + directed state enumeration + trace assertion",
+         "Programs dense in EI/DI/HALT/RETI/RETN/IM/prefix chains under random INT/NMI schedules sampled at every boundary (1.3e8 steps quick) plus exhaustive enumeration of (pre-state x IFF1 x IFF2 x IM x lines x next instruction); acceptance, IFFs, pushed PC, vectoring, R and HALT release compared with the reference after every step.",
+         ZNOTE, "DESIGN.md §3 C02"),
+ "C03": ("exploration", "runtime monitoring: canonical bus-cycle log of every emulate() call compared with the reference cycle list",
+         "The full cycle list (M1/read/write/delay-with-address/ack/port, in order, with addresses and data) of every step of the C01/C02 streams is compared with the reference's; >2700 distinct (encoding, taken/repeat, interrupt kind) variants per quick run, all timing variants required by a coverage floor.",
+         ZNOTE, "DESIGN.md §3 C03"),
  "C17": ("exploration", "runtime monitoring: history + executable held-controls model, ports read by single-stepped IN",
          "Random event histories over every control of every input source; after every event all input ports are read through emulated IN instructions and compared with a model written from the statement. Held on the histories observed (10^5 events quick, 10^7 thorough).",
          "Trusts the keyboard matrix / Sinclair / compound tables typed into the harness from the statement; single-stepping uses the public DebugInterface; known finding sinclair2-down-maps-to-N2 is matched only by its exact signature.",
